@@ -33,6 +33,7 @@ ASSUMPTIONS = [
 ]
 
 KDATA = G.DATA + 0x800        # "kernel" data: privileged-only when the MPU is on
+UT_TABLES = 0x50000           # translation tables of the VMSA user_adversary runs
 
 
 def plan(tier, seed):
@@ -126,7 +127,17 @@ def user_regime(rng, cfg, thumb=None):
             regs[n - 3] = (1 | 7 << 1, G.LOW, 2 << 8)               # vectors: user read-only (256 B)
             privonly = [[G.STACKS, G.STACKS + 0x1000], [KDATA, KDATA + 0x400]]
         sys.update(G.mpu_sys(regs))
+    if not pmsa and rng.random() < 0.5:
+        # MMU on (short descriptors, tables written by gen_user): identity pages for the low MiB; the handler stacks and the translation
+        # tables themselves are privileged-only, the vectors page is read-only for User code
+        mpu_on = True
+        sys['sctlr'] = sct | 1
+        sys.update({'ttbr0': UT_TABLES, 'ttbr0_64': UT_TABLES, 'ttbr1': 0, 'ttbr1_64': 0, 'ttbcr': 0, 'dacr': 1, 'prrr': 0x000AAAAA, 'nmrr': 0x40E040E0})
+        privonly = [[G.STACKS, G.STACKS + 0x1000], [UT_TABLES, UT_TABLES + 0x1000], [UT_TABLES + 0x1000, UT_TABLES + 0x1400]]
     R = G.random_regfile(rng, cfg)
+    if not pmsa and mpu_on:
+        for nme in rng.sample(['R%dusr' % i for i in range(13)], 2):
+            R[nme] = rng.choice([UT_TABLES + 4 * rng.randrange(0, 4), UT_TABLES + 0x1000 + 4 * rng.randrange(0, 256), UT_TABLES + 0x1000 + 4 * 0x30])
     for nme in rng.sample(['R%dusr' % i for i in range(13)] + ['SPusr', 'LRusr'], 5):
         R[nme] = rng.choice([G.STACKS + 0x100 * rng.randrange(1, 9), KDATA + 4 * rng.randrange(0, 64), G.LOW + 4 * rng.randrange(0, 16), G.DATA + 0x400])
     sys['vbar'] = rng.choice([0, G.LOW + 0x200])
@@ -142,6 +153,14 @@ def gen_user(rng):
     G.set_data(devices[2], 0x800, bytes(rng.getrandbits(8) for _ in range(0x100)))
     G.set_data(devices[3], 0x100, bytes(rng.getrandbits(8) for _ in range(0x100)))
     regs, privonly, mpu_on = user_regime(rng, cfg)
+    if cfg['memory_system_architecture'] == 'VMSA':
+        tables = {'kind': 'ram', 'begin': UT_TABLES, 'end': UT_TABLES + 0x2000}
+        G.set_data(tables, 0, ((UT_TABLES + 0x1000) | 1).to_bytes(4, 'little'))
+        G.set_data(tables, 4 * 0xFFF, (0xFFF00000 | 3 << 10 | 0b10).to_bytes(4, 'little'))
+        for i in range(256):
+            ap = 1 if (i << 12) in (G.STACKS, UT_TABLES, UT_TABLES + 0x1000) else (2 if (i << 12) == G.LOW else 3)
+            G.set_data(tables, 0x1000 + 4 * i, ((i << 12) | (ap >> 2) << 9 | (ap & 3) << 4 | 0b10).to_bytes(4, 'little'))
+        devices.append(tables)
     regs['pc'] = G.CODE + 4 * rng.randrange(0, 64)
     nt = rng.choice([60, 120, 200])
     tb = rng.random()
@@ -175,7 +194,7 @@ def gen_user(rng):
         else:
             r2, _, _ = user_regime(rng, cfg)
             # regime changes keep the MPU layout (the privileged-only ranges are fixed per run)
-            for key in ('drsrs', 'drbars', 'dracrs', 'mpuir'):
+            for key in ('drsrs', 'drbars', 'dracrs', 'mpuir', 'ttbr0', 'ttbr0_64', 'ttbr1', 'ttbr1_64', 'ttbcr', 'dacr', 'prrr', 'nmrr'):
                 r2['sys'].pop(key, None)
             r2['sys']['sctlr'] = (r2['sys']['sctlr'] & ~1) | int(mpu_on)
             events.append({'tick': t, 'core': 0, 'kind': 'regime', 'regs': r2})
